@@ -25,6 +25,9 @@ func runC09(cases string, res *Result) {
 	var firstKnown = map[string]*Finding{}
 	var knownSize = map[string]int{}
 	readCases(cases, func(c Case) {
+		if evalAbort {
+			return // a render did not come back: see renderGuarded
+		}
 		stream := c.str("stream")
 		res.Hist["stream:"+stream]++
 		key := c.str("main") + "|" + c.str("ctx") + "|" + fmt.Sprint(c["tpls"])
